@@ -211,6 +211,9 @@ func runProperty(p *Prog, prop, tier string, onlyFunc string) *PropRun {
 			if strings.Contains(o.DeclText, "opaque.") {
 				o.Axioms = lemmaAxioms(p, x)
 			}
+			if o.Kind == "finding" && !hasProp(o.Props, prop) {
+				continue
+			}
 			if o.Kind == "pre" || o.Kind == "frame" || o.Kind == "vacuity" || o.Kind == "dyntype" || hasProp(o.Props, prop) {
 				pr.Obls = append(pr.Obls, o)
 			}
@@ -319,10 +322,11 @@ func smtTextPC(o *Obligation, negate bool, pc []string) string {
 	b.WriteString(smtPrelude)
 	b.WriteString(o.DeclText)
 	b.WriteString(o.Axioms)
-	if o.NeedsSqrt {
+	body := strings.Join(pc, "\n") + o.Goal
+	if o.NeedsSqrt && (strings.Contains(body, "fsqrt") || strings.Contains(body, "u_sqrt")) {
 		b.WriteString(smtSqrtAxioms)
 	}
-	if o.NeedsLog {
+	if o.NeedsLog && (strings.Contains(body, "flog10") || strings.Contains(body, "u_log10")) {
 		b.WriteString(smtLog10Axioms)
 	}
 	for _, a := range pc {
@@ -335,56 +339,104 @@ func smtTextPC(o *Obligation, negate bool, pc []string) string {
 	return b.String()
 }
 
+func solveOne(o *Obligation, wd *workDir, timeoutS int, agree bool) {
+	f := wd.file(o.Name)
+	os.WriteFile(f, []byte(smtText(o, true)), 0o644)
+	o.File = f
+	first := timeoutS
+	if o.Kind != "vacuity" && o.Kind != "finding" && !agree {
+		first = (timeoutS + 1) / 2
+	}
+	best, all := solvePortfolio(f, first, agree)
+	if best.Status == "unknown" && o.Kind != "vacuity" && o.Kind != "finding" {
+		// second attempt on the cone-of-influence slice of the assumptions
+		sl := slicePC(o)
+		if len(sl) < len(o.PC) {
+			f2 := wd.file(o.Name + ".sliced")
+			os.WriteFile(f2, []byte(smtTextPC(o, true, sl)), 0o644)
+			b2, all2 := solvePortfolio(f2, timeoutS-first+1, agree)
+			if b2.Status == "unsat" {
+				b2.Solver += "+slice"
+				b2.Seconds += best.Seconds
+				best, all = b2, all2
+			}
+		}
+	}
+	if agree && best.Status == "unsat" {
+		n := 0
+		for _, r := range all {
+			if r.Status == "unsat" {
+				n++
+			}
+			if r.Status == "sat" {
+				best = r
+				best.Status = "disagree"
+			}
+		}
+		best.Raw = fmt.Sprintf("agreement: %d solvers unsat", n)
+	}
+	o.Result = best
+}
+
+// solveAll discharges the obligations. Obligations are grouped by symbolic path: when a path
+// carries several non-trivial obligations its path condition is checked first, and an
+// infeasible path discharges all of them at once (pc unsat implies pc and not goal unsat).
 func solveAll(pr *PropRun, wd *workDir, timeoutS int, agree bool) {
-	var wg sync.WaitGroup
-	sem := make(chan struct{}, 8)
+	type key struct {
+		fn   string
+		path int
+		n    int
+	}
+	groups := map[key][]*Obligation{}
+	var order []key
 	for _, o := range pr.Obls {
 		if o.Goal == "true" && o.Kind != "vacuity" {
 			o.Result = SolverResult{Status: "unsat", Solver: "trivial"}
 			continue
 		}
+		k := key{o.Func, o.PathID, len(o.PC)}
+		if o.Kind == "vacuity" || o.Kind == "table" || o.Kind == "lemma" {
+			k.n = -1 - len(order)
+		}
+		if _, ok := groups[k]; !ok {
+			order = append(order, k)
+		}
+		groups[k] = append(groups[k], o)
+	}
+	var wg sync.WaitGroup
+	sem := make(chan struct{}, 5)
+	for _, k := range order {
+		g := groups[k]
 		wg.Add(1)
-		sem <- struct{}{}
-		go func(o *Obligation) {
+		go func(g []*Obligation) {
 			defer wg.Done()
-			defer func() { <-sem }()
-			f := wd.file(o.Name)
-			os.WriteFile(f, []byte(smtText(o, true)), 0o644)
-			o.File = f
-			first := timeoutS
-			if o.Kind != "vacuity" && !agree {
-				first = (timeoutS + 1) / 2
-			}
-			best, all := solvePortfolio(f, first, agree)
-			if best.Status == "unknown" && o.Kind != "vacuity" {
-				// second attempt on the cone-of-influence slice of the assumptions
-				sl := slicePC(o)
-				if len(sl) < len(o.PC) {
-					f2 := wd.file(o.Name + ".sliced")
-					os.WriteFile(f2, []byte(smtTextPC(o, true, sl)), 0o644)
-					b2, all2 := solvePortfolio(f2, timeoutS-first+1, agree)
-					if b2.Status == "unsat" {
-						b2.Solver += "+slice"
-						b2.Seconds += best.Seconds
-						best, all = b2, all2
+			if len(g) >= 3 {
+				sem <- struct{}{}
+				probe := &Obligation{Name: g[0].Func + "/path_feasible", Func: g[0].Func, Kind: "path", PC: g[0].PC, Goal: "false", DeclText: g[0].DeclText,
+					Axioms: g[0].Axioms, NeedsSqrt: g[0].NeedsSqrt, NeedsLog: g[0].NeedsLog}
+				f := wd.file(probe.Name)
+				os.WriteFile(f, []byte(smtText(probe, true)), 0o644)
+				r, _ := solvePortfolio(f, 2, false)
+				<-sem
+				if r.Status == "unsat" {
+					for _, o := range g {
+						o.Result = SolverResult{Status: "unsat", Solver: "infeasible-path(" + r.Solver + ")", Seconds: r.Seconds / float64(len(g))}
 					}
+					return
 				}
 			}
-			if agree && best.Status == "unsat" {
-				n := 0
-				for _, r := range all {
-					if r.Status == "unsat" {
-						n++
-					}
-					if r.Status == "sat" {
-						best = r
-						best.Status = "disagree"
-					}
-				}
-				best.Raw = fmt.Sprintf("agreement: %d solvers unsat", n)
+			var iw sync.WaitGroup
+			for _, o := range g {
+				iw.Add(1)
+				go func(o *Obligation) {
+					defer iw.Done()
+					sem <- struct{}{}
+					defer func() { <-sem }()
+					solveOne(o, wd, timeoutS, agree)
+				}(o)
 			}
-			o.Result = best
-		}(o)
+			iw.Wait()
+		}(g)
 	}
 	wg.Wait()
 }
@@ -420,6 +472,16 @@ func aggregate(pr *PropRun) []*NamedResult {
 		}
 		if !found && o.Result.Solver != "" {
 			nr.Solvers = append(nr.Solvers, o.Result.Solver)
+		}
+		if o.Kind == "finding" {
+			// expected to fail inside the recorded region; "sat" confirms the finding is still there
+			if o.Result.Status == "sat" {
+				nr.Status = "finding-confirmed"
+				nr.Failing = o
+			} else if nr.Status != "finding-confirmed" {
+				nr.Status = "finding-not-reproduced"
+			}
+			continue
 		}
 		if o.Kind == "vacuity" {
 			switch o.Result.Status {
@@ -475,7 +537,7 @@ func writeEvidence(verifDir string, pr *PropRun, results []*NamedResult, violati
 	counts := map[string]int{}
 	var per []map[string]interface{}
 	for _, r := range results {
-		if r.Kind == "vacuity" {
+		if r.Kind == "vacuity" || r.Kind == "finding" {
 			continue
 		}
 		if r.Status == "unknown" && !contains(baselineNames, r.Name) {
